@@ -448,11 +448,16 @@ def judge(ctx, module, obs_path, n_records, env=None, timeout=1500, name=None, w
 # known findings, violations, evidence
 
 def load_findings():
-    p = os.path.join(VERIF, "known_findings.json")
-    if not os.path.exists(p):
-        return {"findings": [], "fixed": []}
-    with open(p) as f:
-        return json.load(f)
+    """known_findings.json (the listed properties) plus ext_findings.json (extension components, same format)."""
+    out = {"findings": [], "fixed": []}
+    for name in ("known_findings.json", "ext_findings.json"):
+        p = os.path.join(VERIF, name)
+        if os.path.exists(p):
+            with open(p) as f:
+                d = json.load(f)
+            out["findings"] += d.get("findings", [])
+            out["fixed"] += d.get("fixed", [])
+    return out
 
 
 def _match(cond, rec):
